@@ -346,7 +346,30 @@ def F20():
     return tuple(back) == (-1, 2, 0), f"label {lab!r} parses back to {back}"
 
 
-ALL = dict(F10=F10, F12=F12, F17=F17, F18=F18, F19=F19, F11=F11, F13=F13, F20=F20, F1=F1, F2=F2, F3=F3, F4=F4, F5=F5, F6=F6, F7=F7, F8=F8, F9=F9, F14=F14)
+def F21():
+    from armi.nucDirectory import nuclideBases as nb
+
+    bad = []
+    for n in nb.instances:
+        for getter, table in ((n.getMcc3IdEndfbVII0, nb.byMcc3IdEndfbVII0), (n.getMcc3IdEndfbVII1, nb.byMcc3IdEndfbVII1), (n.getMcc2Id, nb.byMcc2Id)):
+            try:
+                i = getter()
+            except Exception:
+                continue
+            if i and table.get(i) is not None and table[i] is not n:
+                bad.append((n.name, i, table[i].name))
+    return not bad, f"lookups by MC2 id that return ANOTHER nuclide: {sorted(set(bad))}"
+
+
+def F22():
+    from armi.materials.sulfur import Sulfur
+
+    m = Sulfur()
+    tot = sum(m.massFrac.values())
+    return abs(tot - 1.0) < 1e-4, f"Sulfur default mass fractions {dict(m.massFrac)} sum to {tot:.6f}"
+
+
+ALL = dict(F10=F10, F12=F12, F17=F17, F18=F18, F19=F19, F11=F11, F13=F13, F20=F20, F21=F21, F22=F22, F1=F1, F2=F2, F3=F3, F4=F4, F5=F5, F6=F6, F7=F7, F8=F8, F9=F9, F14=F14)
 
 if __name__ == "__main__":
     sys.path.insert(0, os.getcwd())
